@@ -227,6 +227,15 @@ func runC13(c *C13Case) C13Obs {
 			}
 		}
 	}
+	// O1b: what a rewind (GetBody, as a proxy or a second validation does) returns is the forwarded body, byte for byte
+	if c.Body != "" && readable && req.GetBody != nil && c.GetBody != "fails" {
+		if rb, err := req.GetBody(); err == nil {
+			b, _ := io.ReadAll(rb)
+			if string(b) != o.BodyAfter {
+				o.Violations = append(o.Violations, "rewound-body-differs-from-forwarded-body")
+			}
+		}
+	}
 	// O2: with default-setting skipped the forwarded request is the one received
 	if c.Skip || !o.Valid {
 		if !o.Valid && !c.Skip {
@@ -704,6 +713,9 @@ func c13Random(r *Rng) C13Case {
 			c.Body = string(b)
 			if r.Chance(10) {
 				c.Body = `{"a":` // undecodable
+			} else if r.Chance(15) {
+				// white space around the JSON text (the final newline of a pretty-printed file): part of the bytes received
+				c.Body = Pick(r, []string{" ", "\n", "\t\n "})[:1] + c.Body + Pick(r, []string{"\n", " \n", "\r\n"})
 			}
 		}
 		if r.Chance(12) {
